@@ -267,3 +267,39 @@ Example hold_remove_example :
   scan 7 0 None [Entry 7 1 1 [InvOk 101]] = ERevoked /\
   scan 7 100 None [Entry 7 6 1 [InvOk 101]; Entry 7 1 1 []] = ERevoked.
 Proof. repeat split. Qed.
+
+(* ---- base / delta split ---- *)
+Lemma matching_app s l1 l2 : matching s (l1 ++ l2) = matching s l1 ++ matching s l2.
+Proof. unfold matching. apply filter_app. Qed.
+
+(* a delta that lists nothing for the serial leaves the verdict of the base alone *)
+Theorem delta_silent s st base delta :
+  (forall e, In e delta -> e_serial e <> s) ->
+  scan s st None (base ++ delta) = scan s st None base.
+Proof.
+  intros H. apply other_serials_irrelevant2. rewrite matching_app.
+  assert (Hm : matching s delta = []).
+  { unfold matching. induction delta as [|x r IH]; [reflexivity|]. cbn [filter].
+    destruct (e_serial x =? s) eqn:E.
+    - apply Z.eqb_eq in E. exfalso. apply (H x); [left; reflexivity|exact E].
+    - apply IH. intros e He. apply H. right. exact He. }
+  rewrite Hm. apply app_nil_r.
+Qed.
+
+(* a counting permanent entry in the delta revokes whatever the base says, unless an entry is unusable *)
+Theorem delta_permanent_revokes s st base delta :
+  (forall e, In e (base ++ delta) -> e_serial e = s -> bad e = false) ->
+  (exists e, In e delta /\ e_serial e = s /\ counts st e = true /\ permanent e = true) ->
+  scan s st None (base ++ delta) = ERevoked.
+Proof.
+  intros Hnb [e [Hin H]]. apply permanent_revoked; [exact Hnb|].
+  exists e. split; [apply in_or_app; right; exact Hin|exact H].
+Qed.
+
+(* an unusable entry for the serial, in either list, never yields OK *)
+Theorem split_bad_never_ok s st base delta :
+  (exists e, (In e base \/ In e delta) /\ e_serial e = s /\ bad e = true) ->
+  scan s st None (base ++ delta) <> EOk.
+Proof.
+  intros [e [Hin H]]. apply bad_never_ok. exists e. split; [apply in_or_app; exact Hin|exact H].
+Qed.
